@@ -43,9 +43,11 @@ MANIFEST = dict(
           "whitespace characters removed from character data outside whitespace-preserving elements, empty strings dropped, "
           "comments/CDATA/doctypes/PIs, names, nesting and everything below a whitespace-preserving element compared exactly), "
           "prettify_reparse_tokenized (tokenize+build of decode(indent_level=l)'s text and of decode()'s text give the same tree after "
-          "eraseWsL, namely the erased normal form of the tree; hypotheses: RenderWritable of the forest and, separately, of its pretty "
-          "tree -- both decidable, the implication is not proved -- and preAgreeL: an element the pretty-printer lays out is not "
-          "whitespace-preserving for the re-parsing builder). Tie: differential runs of the real prettify / decode / "
+          "eraseWsL, namely the erased normal form of the tree; hypotheses: RenderWritable of the forest -- inherited by its pretty "
+          "tree: pretty_tree_render_writable, with C04's Writable under minimalChoices restated path-independently -- and preAgreeL: "
+          "an element the pretty-printer lays out is not whitespace-preserving for the re-parsing builder). "
+          "pretty_output_is_plain_output needs only 'no hidden element': script/style with their unsubstituted text are covered at the "
+          "text level (substitute_xml and the identity both commute with strip). Tie: differential runs of the real prettify / decode / "
           "decode_contents / encode / encode_contents on every element of html.parser-parsed, API-edited and XML-flavoured trees x "
           "formatters x indent settings x levels x encodings against the Lean mirrors and specs (ops dec, spec, raw impl/spec, ev, evs, "
           "tp/tq, indent, strip, spp), and the direct Python oracle of the statement incl. html.parser re-parse and tokenisation of both outputs; "
@@ -60,8 +62,10 @@ MANIFEST = dict(
           "(str.encode(enc, 'xmlcharrefreplace')) is applied by the harness to the model's text. Re-parse clause: PROVED at tree "
           "level through the tokenizer model on RenderWritable forests under the 'minimal' formatter (prettify_reparse_tokenized; no "
           "hidden elements, no script/style, void names written <br/>, no <x/> otherwise, attribute values the renderer double-quotes "
-          "without &lt;/&gt;, comments/CDATA/doctypes/PIs without their terminators; the pretty tree's own RenderWritable is a second "
-          "decidable hypothesis, not derived); for every tree and formatter it is proved at the token level with opaque pieces "
+          "without &lt;/&gt;, comments/CDATA/doctypes/PIs without their terminators); for script/style content the text-level bridge "
+          "(pretty output = plain output of the pretty tree) and the document-level comparison (pretty_tree_same_parse) are proved, the "
+          "tokenizer step on raw-text elements is recorded (C04's writer has none); the 'html' formatter's substitution is not covered "
+          "by C05's tokenized theorem, hence recorded too; for every tree and formatter it is proved at the token level with opaque pieces "
           "(pretty_same_tokens: cuts are a definition, compared with html.parser's on the real outputs); outside RenderWritable the "
           "tree-level comparison is RECORDED: the real parser and the tokenizer model are run on the real outputs (stream "
           "reparse-model) and the Python oracle compares the trees. The tokenizer model itself is tied to html.parser by equality of "
